@@ -130,7 +130,12 @@ def new_quantizer(path):
     qt = quantizer.Quantizer(path); qt.load_quantization_recipe(recipe_path()); return qt
 
 def check_model(name, n_max=3, seed=1):
-    """-> (cases, failures[list of dict])  for one single-signature fixture"""
+    """-> (cases, failures[list of dict])  for one single-signature fixture; an exception of the real code is a recorded failure"""
+    try: return _check_model(name, n_max, seed)
+    except Exception as e:
+        import traceback; tb = traceback.extract_tb(e.__traceback__)[-1]
+        return 1, [dict(model=name, seed=seed, what=f'calibration raised {type(e).__name__}: {str(e)[:200]} @ {tb.name}:{tb.lineno}')]
+def _check_model(name, n_max, seed):
     from contracts.c04_common import QDIM_REF
     path = model_path(name); data = make_data(path, n_max, seed); truth = own_stats(path, data); m = flat_model(path); consts = constants(m); rt = runtime_names(m)
     cases = 0; fails = []
@@ -177,6 +182,11 @@ def check_model(name, n_max=3, seed=1):
 
 def check_multi_signature(seed=2):
     """two signatures calibrated one after the other, the second session resumed from the first result"""
+    try: return _check_multi_signature(seed)
+    except Exception as e:
+        import traceback; tb = traceback.extract_tb(e.__traceback__)[-1]
+        return 1, [dict(model=MULTI, seed=seed, what=f'calibration raised {type(e).__name__}: {str(e)[:200]} @ {tb.name}:{tb.lineno}')]
+def _check_multi_signature(seed):
     path = model_path(MULTI); it = _tfl().Interpreter(model_path=path); keys = sorted(it.get_signature_list()); cases = 0; fails = []
     prev = None; per_key = {}
     for key in keys:
